@@ -2,6 +2,7 @@ import MosnVerif.Lemmas.Headers
 import MosnVerif.Lemmas.Retry
 import MosnVerif.Lemmas.RouteFinalize
 import MosnVerif.Lemmas.HeaderWiring
+import MosnVerif.Lemmas.RetryPolicy
 /-!
 # C17 — route actions, timeouts and the retry policy are applied exactly as configured (property theorems only)
 
@@ -9,6 +10,8 @@ Part 1: header mutations at the three levels, and the effective timeout (`Model/
 Part 2 (namespace `Retry` below): the retry policy on the attempt machine of `Model/Retry.lean` (regenerated retry decision
 inside `onUpstreamHeaders` / `onUpstreamReset` / `doRetry` / the timers), local replies of redirect / direct-response routes,
 prefix rewrite and redirect assembly.
+Part 5 (section `PolicyBuild`, at the end): the retry policy FROM CONFIGURATION — the regenerated construction in
+`NewRouteRuleImplBase`, the regenerated accessors (nil policy included) — into `parseProxyTimeout` and the attempt machine.
 -/
 namespace MosnVerif.Props.C17
 open MosnVerif.Model.Headers MosnVerif.Gen.HeaderMutation MosnVerif.Gen.ProxyTimeout
@@ -509,5 +512,118 @@ example : (builtParser crossedWiring exCfg' .vhost .response).isNone = true := b
 example : (builtParser parserWiring exCfg' .vhost .response).isSome = true := by decide
 
 end Wiring
+
+/-! ## Part 5 — the retry policy is built from the configuration for EVERY value of `retry_on`, and what the proxy reads of it
+
+`Model/RetryPolicy.lean` over `Gen.RetryPolicyBuild` (construction guard and field expressions of `NewRouteRuleImplBase`, the four
+accessors of `retryPolicyImpl` with their nil answers), composed with the regenerated `parseProxyTimeout` (Part 1) and the
+attempt machine (Part 2). -/
+section PolicyBuild
+open MosnVerif.Model.Retry MosnVerif.Model.RetryPolicy MosnVerif.Gen.RetryPolicyBuild
+
+/-- **policy_fields_follow_config**: for every configured `retry_policy` — every `retry_on`, per-try timeout, `num_retries`, status
+code list — each configured field is what its accessor answers (`RetryOn()`, `TryTimeout()`, `NumRetries()`,
+`RetryableStatusCodes()`); a route without `retry_policy` answers false / 0 / 0 / no codes. In particular `retry_on = false`
+does not hide `retry_timeout` and `num_retries` from the proxy. -/
+theorem policy_fields_follow_config (cfg : Option RetryCfg) : effectivePolicy cfg = specEffective cfg :=
+  effective_eq_spec cfg
+
+/-- the same, field by field, for a configured policy -/
+theorem policy_fields_reach_accessors (c : RetryCfg) :
+    (effectivePolicy (some c)).retryOn = c.retryOn ∧ (effectivePolicy (some c)).tryTimeout = c.retryTimeout ∧
+    (effectivePolicy (some c)).numRetries = (c.numRetries : Int) ∧ (effectivePolicy (some c)).statusCodes = c.statusCodes.map Int.ofNat := by
+  rw [policy_fields_follow_config]; exact ⟨rfl, rfl, rfl, rfl⟩
+
+/-- **try_timeout_effective**: the effective timeouts of a request on a route with a configured `retry_policy` are those of
+`timeout_precedence` with the CONFIGURED `retry_timeout` in the route's place — for both values of `retry_on`, every header /
+variable content and every integer parser. -/
+theorem try_timeout_effective (parseInt : String → Option Int) (c : RetryCfg) (rg : Int) (hT hG vT vG : Option String) :
+    effectiveTimeouts parseInt (some c) rg hT hG vT vG =
+      (specGlobal parseInt 0 true rg hG vG, specTry parseInt 0 0 true rg c.retryTimeout hT hG vT vG) := by
+  unfold effectiveTimeouts
+  rw [timeout_precedence, (policy_fields_reach_accessors c).2.1]
+
+/-- … and when neither a per-try header nor a per-try variable overrides (absent or not numeric), the per-try timeout of the
+request IS the route's `retry_timeout` (disabled only when it is not below the effective global timeout) — whatever `retry_on` -/
+theorem try_timeout_effective_route (parseInt : String → Option Int) (c : RetryCfg) (rg : Int) (hT hG vT vG : Option String)
+    (h1 : hT.bind parseInt = none) (h2 : vT.bind parseInt = none) :
+    (effectiveTimeouts parseInt (some c) rg hT hG vT vG).2 =
+      if c.retryTimeout ≥ specGlobal parseInt 0 true rg hG vG then 0 else c.retryTimeout := by
+  rw [try_timeout_effective]
+  simp [specTry, pickTimeout, h1, h2]
+
+/-- a per-try timer is armed for the attempts of such a request iff the configured `retry_timeout` is positive and below the global
+timeout: the silent upstream is cut after `retry_timeout`, not after the global timeout -/
+theorem try_timer_armed (parseInt : String → Option Int) (c : RetryCfg) (rg : Int) (hG vG : Option String) (dis : Bool)
+    (hpos : 0 < c.retryTimeout) (hlt : c.retryTimeout < specGlobal parseInt 0 true rg hG vG) :
+    (routePolicy parseInt (some c) rg none hG none vG dis).tryTimeout = true := by
+  unfold routePolicy machinePolicy
+  rw [try_timeout_effective_route parseInt c rg none hG none vG rfl rfl]
+  have : ¬ c.retryTimeout ≥ specGlobal parseInt 0 true rg hG vG := by omega
+  simp [this, hpos]
+
+/-- the machine policy of a configured route: `retry_on`, `num_retries` and the code list are the configured ones -/
+theorem route_policy_fields (parseInt : String → Option Int) (c : RetryCfg) (rg : Int) (hT hG vT vG : Option String) (dis : Bool) :
+    let p := routePolicy parseInt (some c) rg hT hG vT vG dis
+    p.retryOn = c.retryOn ∧ p.numRetries = c.numRetries ∧ p.codes = c.statusCodes ∧ p.disable = dis := by
+  simp only [routePolicy, machinePolicy, policy_fields_follow_config, specEffective, toNat_codes]
+  simp
+
+/-- all labels are connect failures (stream reset ConnectionFailed or `pool.NewStream` refused with ConnectionFailure) with an
+admitting breaker and a healthy next host -/
+def ConnectFailures (ls : List Label) : Prop :=
+  ∀ l ∈ ls, (l.o = .connFail ∨ l.o = .poolConnFail) ∧ l.canCreate = true ∧ l.host.isSome = true
+
+/-- **connect_failure_budget_exact**: on a route with a configured `retry_policy`, a request whose attempts all end in a connect
+failure makes EXACTLY `1 + min k (max 3 num_retries)` upstream attempts for `k` failures — so exactly `1 + max 3 num_retries`
+once there are enough failures — REGARDLESS of `retry_on` (retries not disabled for the request), for every timeout source. -/
+theorem connect_failure_budget_exact (parseInt : String → Option Int) (c : RetryCfg) (rg : Int) (hT hG vT vG : Option String)
+    (h0 : Nat) (ls : List Label) (hcf : ConnectFailures ls) :
+    attemptCount (run (routePolicy parseInt (some c) rg hT hG vT vG false) (some h0) ls).trace
+      = 1 + min ls.length (max 3 c.numRetries) := by
+  have hf := route_policy_fields parseInt c rg hT hG vT vG false
+  simp only at hf
+  rw [run_retried_count _ h0 ls, hf.2.1]
+  intro l hl
+  obtain ⟨ho, hcc, hh⟩ := hcf l hl
+  refine ⟨?_, hcc, hh, ?_⟩
+  · rcases ho with ho | ho <;> simp [ho, retryable, hf.2.2.2]
+  · rcases ho with ho | ho <;> simp [ho]
+
+/-- the other retryable causes (a listed status code / any 5xx without a list, connection termination, per-try timeout) use the
+same budget ONLY with `retry_on` … -/
+theorem other_causes_budget_with_retry_on (p : Policy) (h0 : Nat) (ls : List Label) (hall : AllRetried p ls) :
+    attemptCount (run p (some h0) ls).trace = 1 + min ls.length (max 3 p.numRetries) :=
+  run_retried_count p h0 ls hall
+
+/-- … and without `retry_on` none of them is retried: exactly one attempt, whatever follows -/
+theorem other_causes_not_retried_without_retry_on (p : Policy) (h0 : Nat) (l : Label) (ls : List Label) (hro : p.retryOn = false)
+    (ho : (∃ c, l.o = .resp c) ∨ l.o = .termination ∨ l.o = .perTry) (hpt : l.o = .perTry → p.tryTimeout = true) :
+    attemptCount (run p (some h0) (l :: ls)).trace = 1 := by
+  apply run_not_retried_count p h0 l ls _ hpt
+  rcases ho with ⟨c, ho⟩ | ho | ho <;> simp [ho, retryable, hro]
+
+-- non-vacuity and the seeded defect class: retry_on = false with a per-try timeout and num_retries above the floor
+def exCfgOff : RetryCfg := { retryOn := false, retryTimeout := 200000000, numRetries := 5, statusCodes := [] }
+def exFails (k : Nat) : List Label := (List.range k).map (fun i => failLabel (if i % 2 = 0 then .poolConnFail else .connFail) (i + 1))
+
+example : effectivePolicy (some exCfgOff) = ⟨false, 200000000, 5, []⟩ := by decide
+example : (effectiveTimeouts (fun _ => none) (some exCfgOff) 5000000000 none none none none) = (5000000000, 200000000) := by decide
+example : ConnectFailures (exFails 8) := by unfold ConnectFailures; decide
+example : attemptCount (run (routePolicy (fun _ => none) (some exCfgOff) 5000000000 none none none none false) (some 0) (exFails 8)).trace = 6 := by decide
+example : AllRetried { retryOn := true, numRetries := 4, codes := [], tryTimeout := true, disable := false }
+    [failLabel (.resp 503) 1, failLabel .perTry 2, failLabel .termination 3] := by unfold AllRetried; decide
+/-- negation witness: a construction guarded by `retry_on` (`if retry_policy != nil && retry_policy.retry_on`) hides the per-try
+timeout and the configured budget of such a route: accessors of the nil policy -/
+def guardedBuild (cfg : Option RetryCfg) : Option Built :=
+  match cfg with
+  | some c => if c.retryOn then build (some c) else none
+  | none => none
+example : accessors (guardedBuild (some exCfgOff)) = ⟨false, 0, 0, []⟩ := by decide
+example : accessors (guardedBuild (some exCfgOff)) ≠ specEffective (some exCfgOff) := by decide
+example : (parseProxyTimeout (fun _ => none) 0 0 true 5000000000 (accessors (guardedBuild (some exCfgOff))).tryTimeout none none none none).2 = 0 := by decide
+example : attemptCount (run (machinePolicy (accessors (guardedBuild (some exCfgOff))) 0 false) (some 0) (exFails 8)).trace = 4 := by decide
+
+end PolicyBuild
 
 end MosnVerif.Props.C17
